@@ -97,6 +97,18 @@ func traps() []*Scenario {
 			regTLD(s("ALPHA"), "u", 2), regTLD(cmt, "u", 2), regTLD(cmt, "u", 2), reg(o1, "a.u", "o1", 8), add(o1, "a.u", "A", "1.1.1.1"), tick(8),
 			reg(o2, "a.u", "o2", 8), xfer(o1, "a.u", "o2"), regTLD(o1, "u", 3), regTLD(cmt, "u", 3), add(o1, "a.u", "A", "2.2.2.2"),
 			updSOA(o1, "a.u", "m2", 5), updSOA(o1, "u", "m2", 5), updSOA(cmt, "u", "m2", 5)}},
+		// names of level 4 and 5 whose ancestors have DIFFERENT owners: only the owner/admin of the directly
+		// enclosing name may register (seeded change C11-admin-of-second-level)
+		{CN: 3, Src: "trap:deepparent", Steps: []Step{
+			reg(o1, "a.t", "o1", 12), reg(s("o1", "o2"), "b.a.t", "o2", 12),
+			reg(s("o1"), "c.b.a.t", "o1", 8) /* grandparent owner alone: refused */, reg(s("o1", "o3"), "c.b.a.t", "o3", 8), /* refused */
+			reg(s("o2"), "c.b.a.t", "o2", 8) /* parent owner: accepted */,
+			reg(s("o1", "o3"), "d.c.b.a.t", "o3", 4) /* refused */, reg(s("o2", "o3"), "d.c.b.a.t", "o3", 4) /* accepted */,
+			setAdmin(s("o2", "o3"), "b.a.t", "o3"), xfer(o2, "c.b.a.t", "o1"), tick(5),
+			reg(s("o2", "o3"), "d.c.b.a.t", "o3", 4) /* o2 no longer owns c.b.a.t: refused */,
+			reg(s("o1", "o2"), "d.c.b.a.t", "o2", 4) /* accepted: o1 owns c.b.a.t now */,
+			setAdmin(s("o1", "o3"), "c.b.a.t", "o3"), tick(5), reg(s("o3"), "d.c.b.a.t", "o3", 4) /* admin of the parent: accepted */,
+			reg(s("o3", "o2"), "c.a.t", "o2", 4) /* o3 is admin of b.a.t, not of a.t: refused */, reg(s("o1", "o2"), "c.a.t", "o2", 4)}},
 		// former owner / former admin / parent owner after transfers
 		{CN: 4, Src: "trap:former", Steps: []Step{
 			reg(o1, "a.t", "o1", 8), reg(o1, "b.a.t", "o2", 8), reg(s("o1", "o2"), "b.a.t", "o2", 8), setAdmin(o2, "b.a.t", "o3"),
